@@ -155,6 +155,25 @@ def literal_tables(tu, struct_types=('reb_janus_scheme',)):
             return lit(n['inner'][0], ty)
         if k == 'ImplicitValueInitExpr':
             return Fraction(0)
+        if k == 'UnaryOperator' and n.get('opcode') == '&':
+            # a table of pointers to file-scope objects (static const struct T* const all[] = {&a, &b, ...})
+            t0 = strip(n['inner'][0], casts=True)
+            if t0.get('kind') == 'DeclRefExpr':
+                return ('ref', t0['referencedDecl']['name'])
+            raise ValueError('address of a non-object')
+        if k == 'BinaryOperator' and n.get('opcode') == '/' and all(strip(c, casts=True).get('kind') == 'UnaryExprOrTypeTraitExpr' for c in n['inner']):
+            # sizeof(table)/sizeof(table[0]): the number of entries
+            def sz_type(u):
+                u = strip(u, casts=True)
+                if u.get('argType'):
+                    return u['argType'].get('qualType', '')
+                return qtype(strip(u['inner'][0])) if u.get('inner') else ''
+            import re as _re
+            tn, td = sz_type(n['inner'][0]).replace(' ', ''), sz_type(n['inner'][1]).replace(' ', '')
+            mm = _re.match(r'^(.*)\[(\d+)\]$', tn)
+            if mm and mm.group(1) == td:
+                return Fraction(int(mm.group(2)))
+            raise ValueError('sizeof quotient')
         if k == 'BinaryOperator':
             a, b = lit(n['inner'][0], ty), lit(n['inner'][1], ty)
             op = n['opcode']
@@ -206,6 +225,16 @@ class Interp:
         self.ignore = set(ignore)
         self.noarg_ops = {'to_double', 'to_int'}
         self.depth = 0
+        # file-local helpers that do not exist in the reference tree (a lookup split off into its own function) are entered
+        # like any other code of the function that calls them
+        from .. import normal as _normal
+        self.new_helpers = set()
+        for name_, f_ in funcs.items():
+            if f_.get('storageClass') == 'static':
+                cf_ = cfront.basename(f_.get('_locfile') or f_.get('_file') or '')
+                ref_ = _normal.reference_names(cf_) if cf_ else None
+                if ref_ and name_ not in ref_:
+                    self.new_helpers.add(name_)
 
     # ---- access paths
     def path(self, n, env):
@@ -280,6 +309,17 @@ class Interp:
                     if v is None:
                         raise Unknown('struct member')
                     return ('table', bv[1] + '.' + n['name'], v) if isinstance(v, list) else _p(v)
+            elif b0.get('kind') in ('ArraySubscriptExpr', 'UnaryOperator', 'ParenExpr'):
+                # member of an entry of a table of (pointers to) constant structs: all[k]->order
+                try:
+                    bv = self.ev(b0, env)
+                except Unknown:
+                    bv = None
+                if isinstance(bv, tuple) and bv[0] == 'struct':
+                    v = bv[2].get(n['name'])
+                    if v is None:
+                        raise Unknown('struct member')
+                    return ('table', bv[1] + '.' + n['name'], v) if isinstance(v, list) else _p(v)
             return self.load(self.path(n, env))
         if k == 'ArraySubscriptExpr':
             b = self.ev(n['inner'][0], env)
@@ -289,11 +329,20 @@ class Interp:
                 if idx < 0 or idx >= len(b[2]):
                     raise AnalysisError('table %s indexed out of range (%d of %d) at line %s' % (b[1], idx, len(b[2]), line_of(n)))
                 v = b[2][idx]
+                if isinstance(v, tuple) and v[0] == 'ref':
+                    if isinstance(self.tables.get(v[1]), dict):
+                        return ('struct', v[1], self.tables[v[1]])
+                    raise Unknown('pointer entry ' + v[1])
                 return ('table', b[1], v) if isinstance(v, list) else _p(v)
             raise Unknown('subscript')
         if k == 'UnaryOperator':
             op = n['opcode']
-            if op == '&' or op == '*':
+            if op == '*':
+                v = self.ev(n['inner'][0], env)
+                if isinstance(v, tuple) and v[0] == 'struct':
+                    return v            # *all[k]: the constant struct the entry points to
+                raise Unknown('deref')
+            if op == '&':
                 raise Unknown('addr')
             v = self.ev(n['inner'][0], env)
             if op == '-':
@@ -361,7 +410,7 @@ class Interp:
             return self.ev(n['inner'][1 if c != 0 else 2], env)
         if k == 'CallExpr':
             nm = callee_name(n)
-            if nm in self.funcs and nm in self.descend:
+            if nm in self.funcs and (nm in self.descend or nm in getattr(self, 'new_helpers', ())):
                 v = self.call(nm, [self.evarg(a, env) for a in call_args(n)])
                 if v is None:
                     raise Unknown('call result ' + nm)
